@@ -1,5 +1,6 @@
-(* C06 - Mech (the machine of the repaired code, Model.v) refines Spec for ALL programs; every statement
-   and every call restores both stacks below its own level. *)
+(* C06 - Mech (the machine of the repaired code with its name-keyed destructor bookkeeping, Model.v)
+   refines Spec for ALL programs in which no function body re-declares a live name (wf_prog); every
+   statement and every call restores both stacks and the variable scopes below its own level. *)
 From Coq Require Import List Arith Bool Lia.
 Import ListNotations.
 From Cb Require Import C06.Model C06.Prims.
@@ -9,209 +10,361 @@ Ltac break_match H :=
          | context [match ?x with _ => _ end] => destruct x eqn:?
          end.
 
-Definition regD (s : stmt) : list nat := match s with SDefer k => [k] | _ => [] end.
-Definition regT (s : stmt) : list nat := match s with SObj k => [k] | _ => [] end.
+Definition regD (n : nat) (s : stmt) : list nat := match s with SDefer k => [oid n k] | _ => [] end.
+Definition regT (n : nat) (s : stmt) : list (ty * nat) :=
+  match s with SObj _ t k => obj_parts t (oid n k) | _ => [] end.
 
 (* Spec: a statement changes the lists of its own scope only by what it registers itself *)
-Lemma sexec_DT : forall fuel p it s D T o t D' T',
-  sexec fuel p it s D T = Some (o, t, D', T') -> D' = D ++ regD s /\ T' = T ++ regT s.
+Lemma sexec_DT : forall fuel p n it s D T o t D' T',
+  sexec fuel p n it s D T = Some (o, t, D', T') -> D' = D ++ regD n s /\ T' = T ++ regT n s.
 Proof.
   destruct fuel; simpl; [discriminate|].
-  intros p it s D T o t D' T' H.
+  intros p n it s D T o t D' T' H.
   destruct s; simpl in *; unfold lift_scope in H;
     break_match H; try discriminate; inversion H; subst; rewrite ?app_nil_r; auto.
 Qed.
 
-(* the machine state after a statement list, relative to the Spec result *)
-Definition rel (o : outcome) (st' : state) (D' T' : list nat) Ds Ts sc (t1 : list event) : Prop :=
-  st' = mk (D' :: Ds) (T' :: Ts) sc t1 \/
-  (o = ORet /\ st' = mk ([] :: Ds) ([] :: Ts) sc (t1 ++ map EDefer (rev D') ++ map EDtor (rev T'))).
+(* the slots of the names in N are what they were *)
+Definition agree (N : list name) (F F' : frame) : Prop := forall x, In x N -> lookup F' x = lookup F x.
+Definition disj (A B : list name) : Prop := forall x, In x A -> ~ In x B.
 
-Lemma rel_close : forall o st' D' T' Ds Ts sc t1, rel o st' D' T' Ds Ts sc t1 ->
-  pop_destructor_scope st' = mk Ds Ts sc (t1 ++ map EDefer (rev D') ++ map EDtor (rev T')).
+Lemma agree_refl : forall N F, agree N F F.
+Proof. red; auto. Qed.
+
+Lemma agree_trans : forall N F1 F2 F3, agree N F1 F2 -> agree N F2 F3 -> agree N F1 F3.
+Proof. unfold agree; intros. rewrite H0, H; auto. Qed.
+
+Lemma agree_sub : forall N N' F F', agree N F F' -> incl N' N -> agree N' F F'.
+Proof. unfold agree, incl; auto. Qed.
+
+Lemma agree_flag_names : forall N F l, disj l N -> agree N F (flag_names F l).
+Proof. intros N F l H x Hx. apply lookup_flag_names_other. intro E. exact (H x E Hx). Qed.
+
+(* the machine state after a statement list, relative to the Spec result: the innermost level is
+   either intact (pending entries Tm' standing for the Spec's T') or - after a `return` - cleared and
+   already printed *)
+Definition intact (N0 : list name) (F : frame) (st' : state) D' (T' : list (ty * nat)) Ds Ts Fs (t1 : list event) : Prop :=
+  exists Tm' F', st' = mk (D' :: Ds) (Tm' :: Ts) (F' :: Fs) t1 /\
+                 NoDup (names Tm') /\ disj (names Tm') N0 /\ lvl_ok F' Tm' T' /\ agree N0 F F'.
+
+Definition cleared (N0 : list name) (F : frame) (st' : state) (D' : list nat) (T' : list (ty * nat)) Ds Ts Fs (t1 : list event) : Prop :=
+  exists F', st' = mk ([] :: Ds) ([] :: Ts) (F' :: Fs) (t1 ++ map EDefer (rev D') ++ map dtor_ev (rev T')) /\
+             agree N0 F F'.
+
+Definition rel (o : outcome) N0 F st' D' T' Ds Ts Fs t1 : Prop :=
+  intact N0 F st' D' T' Ds Ts Fs t1 \/ (o = ORet /\ cleared N0 F st' D' T' Ds Ts Fs t1).
+
+(* closing the scope in either case gives the Spec's transcript; the enclosing levels' slots survive *)
+Lemma rel_close : forall o N0 F st' D' T' Ds Ts Fs t1, rel o N0 F st' D' T' Ds Ts Fs t1 ->
+  exists F', pop_destructor_scope st' = mk Ds Ts (F' :: Fs) (t1 ++ map EDefer (rev D') ++ map dtor_ev (rev T'))
+             /\ agree N0 F F'.
 Proof.
-  intros o st' D' T' Ds Ts sc t1 [->|[_ ->]]; rewrite pop_destructor_scope_cc; auto.
-  simpl. now rewrite app_nil_r.
+  intros o N0 F st' D' T' Ds Ts Fs t1 [(Tm' & F' & -> & ND & DJ & OK & AG)|[_ (F' & -> & AG)]].
+  - erewrite pop_destructor_scope_cc by eassumption. eexists; split; [reflexivity|].
+    eapply agree_trans; [exact AG|]. apply agree_flag_names.
+    intros x Hx. apply DJ. now apply in_rev.
+  - rewrite pop_destructor_scope_empty. simpl. rewrite app_nil_r. eauto.
 Qed.
 
-Lemma rel_close_scope : forall o st' D' T' Ds Ts sc t1, rel o st' D' T' Ds Ts sc t1 ->
-  pop_scope st' = mk Ds Ts (pred sc) (t1 ++ map EDefer (rev D') ++ map EDtor (rev T')).
-Proof. intros. unfold pop_scope. erewrite rel_close by eassumption. reflexivity. Qed.
+Lemma rel_close_scope : forall o N0 F st' D' T' Ds Ts Fs t1, rel o N0 F st' D' T' Ds Ts Fs t1 ->
+  pop_scope st' = mk Ds Ts Fs (t1 ++ map EDefer (rev D') ++ map dtor_ev (rev T')).
+Proof.
+  intros. rewrite pop_scope_unfold. destruct (rel_close _ _ _ _ _ _ _ _ _ _ H) as (F' & -> & _). reflexivity.
+Qed.
+
+Lemma NoDup_app_cons_end : forall (l : list name) x, NoDup l -> ~ In x l -> NoDup (l ++ [x]).
+Proof.
+  induction l as [|y l IH]; intros x ND NI; simpl.
+  - constructor; [intros []|constructor].
+  - inversion ND; subst. constructor.
+    + intro H. apply in_app_or in H. destruct H as [H|[H|[]]]; [contradiction|]. subst. apply NI. now left.
+    + apply IH; auto. intro; apply NI; now right.
+Qed.
+
+Lemma wf_body : forall p g, wf_prog p = true -> wf_b [] [] (body p g) = true.
+Proof.
+  intros p g H. unfold body, wf_prog in *.
+  destruct (nth_in_or_default g p BNil) as [I|E].
+  - eapply forallb_forall in H; eauto.
+  - rewrite E. reflexivity.
+Qed.
 
 Section Ref.
 Variable p : prog.
+Hypothesis WFP : wf_prog p = true.
 
-Definition Ps (fuel : nat) : Prop := forall it s D T Ds Ts sc t0,
-  match sexec fuel p it s D T with
-  | None => mexec fuel p it s (mk (D :: Ds) (T :: Ts) sc t0) = None
+Definition Ps (fuel : nat) : Prop := forall n it s N0 D Tm T Ds Ts F Fs t0,
+  wf_s (names Tm ++ N0) s = true -> NoDup (names Tm) -> disj (names Tm) N0 -> lvl_ok F Tm T ->
+  match sexec fuel p n it s D T with
+  | None => mexec fuel p n it s (mk (D :: Ds) (Tm :: Ts) (F :: Fs) t0) = None
   | Some (o, t, D', T') => exists st',
-      mexec fuel p it s (mk (D :: Ds) (T :: Ts) sc t0) = Some (o, st') /\
-      rel o st' D' T' Ds Ts sc (t0 ++ t) /\ (o <> ORet -> st' = mk (D' :: Ds) (T' :: Ts) sc (t0 ++ t))
+      mexec fuel p n it s (mk (D :: Ds) (Tm :: Ts) (F :: Fs) t0) = Some (o, st') /\
+      rel o N0 F st' D' T' Ds Ts Fs (t0 ++ t) /\
+      (o <> ORet -> exists Tm' F', st' = mk (D' :: Ds) (Tm' :: Ts) (F' :: Fs) (t0 ++ t) /\
+                                   names Tm' = names Tm ++ decl_s s /\
+                                   NoDup (names Tm') /\ disj (names Tm') N0 /\ lvl_ok F' Tm' T' /\ agree N0 F F')
   end.
 
-Definition Pb (fuel : nat) : Prop := forall it b D T Ds Ts sc t0,
-  match sexec_b fuel p it b D T with
-  | None => mexec_b fuel p it b (mk (D :: Ds) (T :: Ts) sc t0) = None
+Definition Pb (fuel : nat) : Prop := forall n it b N0 D Tm T Ds Ts F Fs t0,
+  wf_b (names Tm) N0 b = true -> NoDup (names Tm) -> disj (names Tm) N0 -> lvl_ok F Tm T ->
+  match sexec_b fuel p n it b D T with
+  | None => mexec_b fuel p n it b (mk (D :: Ds) (Tm :: Ts) (F :: Fs) t0) = None
   | Some (o, t, D', T') => exists st',
-      mexec_b fuel p it b (mk (D :: Ds) (T :: Ts) sc t0) = Some (o, st') /\
-      rel o st' D' T' Ds Ts sc (t0 ++ t) /\ (o <> ORet -> st' = mk (D' :: Ds) (T' :: Ts) sc (t0 ++ t))
+      mexec_b fuel p n it b (mk (D :: Ds) (Tm :: Ts) (F :: Fs) t0) = Some (o, st') /\
+      rel o N0 F st' D' T' Ds Ts Fs (t0 ++ t) /\
+      (o <> ORet -> intact N0 F st' D' T' Ds Ts Fs (t0 ++ t))
   end.
 
-Definition Pl (fuel : nat) : Prop := forall n i b Xs Ys sc t0,
-  match sloop fuel p n i b with
-  | None => mloop fuel p n i b (mk Xs Ys sc t0) = None
-  | Some (o, t) => mloop fuel p n i b (mk Xs Ys sc t0) = Some (o, mk Xs Ys sc (t0 ++ t))
+Definition Pl (fuel : nat) : Prop := forall n m i b N0 Xs Ys F Fs t0,
+  wf_b [] N0 b = true ->
+  match sloop fuel p n m i b with
+  | None => mloop fuel p n m i b (mk Xs Ys (F :: Fs) t0) = None
+  | Some (o, t) => exists F', mloop fuel p n m i b (mk Xs Ys (F :: Fs) t0) = Some (o, mk Xs Ys (F' :: Fs) (t0 ++ t))
+                              /\ agree N0 F F'
   end.
 
-Lemma compound_ref : forall f, Pb f -> forall it b Xs Ys sc t0,
-  match scope_close (sexec_b f p it b [] []) with
-  | None => compound_close (mexec_b f p it b (push_destructor_scope (mk Xs Ys sc t0))) = None
-  | Some (o, t) =>
-      compound_close (mexec_b f p it b (push_destructor_scope (mk Xs Ys sc t0))) = Some (o, mk Xs Ys sc (t0 ++ t))
+Lemma compound_ref : forall f, Pb f -> forall n it b N0 Xs Ys F Fs t0, wf_b [] N0 b = true ->
+  match scope_close (sexec_b f p n it b [] []) with
+  | None => compound_close (mexec_b f p n it b (push_destructor_scope (mk Xs Ys (F :: Fs) t0))) = None
+  | Some (o, t) => exists F',
+      compound_close (mexec_b f p n it b (push_destructor_scope (mk Xs Ys (F :: Fs) t0))) =
+      Some (o, mk Xs Ys (F' :: Fs) (t0 ++ t)) /\ agree N0 F F'
   end.
 Proof.
-  intros f HF it b Xs Ys sc t0. unfold push_destructor_scope; simpl.
-  specialize (HF it b [] [] Xs Ys sc t0).
-  destruct (sexec_b f p it b [] []) as [[[[o t] D'] T']|]; simpl.
-  - destruct HF as (st' & E & R & _). rewrite E; simpl. erewrite rel_close by eassumption.
-    now rewrite <- app_assoc.
+  intros f HF n it b N0 Xs Ys F Fs t0 W. unfold push_destructor_scope; simpl.
+  specialize (HF n it b N0 [] [] [] Xs Ys F Fs t0 W (NoDup_nil _) (fun x H => match H with end) (Forall2_nil _)).
+  destruct (sexec_b f p n it b [] []) as [[[[o t] D'] T']|]; simpl.
+  - destruct HF as (st' & E & R & _). rewrite E; simpl.
+    destruct (rel_close _ _ _ _ _ _ _ _ _ _ R) as (F' & -> & AG).
+    exists F'. now rewrite <- app_assoc.
   - now rewrite HF.
 Qed.
+
+(* a statement that leaves the current level alone *)
+Lemma keep_level : forall N0 F F' Tm T,
+  disj (names Tm) N0 -> lvl_ok F Tm T -> agree (names Tm ++ N0) F F' ->
+  lvl_ok F' Tm T /\ agree N0 F F'.
+Proof.
+  intros. split.
+  - eapply lvl_ok_change; eauto. intros x Hx. apply H1. apply in_or_app. now left.
+  - eapply agree_sub; eauto. intros x Hx. apply in_or_app. now right.
+Qed.
+
+Lemma intact_of : forall N0 F st' D' T' Ds Ts Fs t1 Tm' F' (L : list name),
+  st' = mk (D' :: Ds) (Tm' :: Ts) (F' :: Fs) t1 /\ names Tm' = L /\
+  NoDup (names Tm') /\ disj (names Tm') N0 /\ lvl_ok F' Tm' T' /\ agree N0 F F' ->
+  intact N0 F st' D' T' Ds Ts Fs t1.
+Proof. intros. destruct H as (A & _ & B & C & D & E). exists Tm', F'. auto. Qed.
 
 Lemma ref_all : forall fuel, Ps fuel /\ Pb fuel /\ Pl fuel.
 Proof.
   induction fuel as [|f (IHs & IHb & IHl)].
   - repeat split; red; intros; simpl; auto.
   - split; [|split].
-    + red; intros it s D T Ds Ts sc t0.
+    + red; intros n it s N0 D Tm T Ds Ts F Fs t0 W ND DJ OK.
+      (* statements that run a nested scope and leave the level as it is *)
+      assert (KEEP : forall o t F' st', st' = mk (D :: Ds) (Tm :: Ts) (F' :: Fs) (t0 ++ t) ->
+                agree (names Tm ++ N0) F F' -> decl_s s = [] ->
+                rel o N0 F st' D T Ds Ts Fs (t0 ++ t) /\
+                (o <> ORet -> exists Tm' F'', st' = mk (D :: Ds) (Tm' :: Ts) (F'' :: Fs) (t0 ++ t) /\
+                     names Tm' = names Tm ++ decl_s s /\
+                     NoDup (names Tm') /\ disj (names Tm') N0 /\ lvl_ok F'' Tm' T /\ agree N0 F F'')).
+      { intros o t F' st' -> AG DS. rewrite DS.
+        destruct (keep_level N0 F F' Tm T DJ OK AG) as (K1 & K2).
+        split.
+        - left. exists Tm, F'. repeat split; auto.
+        - intros _. exists Tm, F'. rewrite app_nil_r. repeat split; auto. }
       destruct s; simpl.
-      * rewrite declare_obj_cc. eexists; split; [reflexivity|]. split; [left|]; auto.
-      * rewrite defer_stmt_cc. eexists; split; [reflexivity|]. split; [left|]; auto.
-      * eexists; split; [reflexivity|]. split; [left|]; auto.
-      * pose proof (compound_ref f IHb it b (D :: Ds) (T :: Ts) sc t0) as C.
-        destruct (scope_close (sexec_b f p it b [] [])) as [[o t]|]; simpl; auto.
-        eexists; split; [exact C|]. split; [left|]; auto.
-      * destruct (cond_true it c).
-        -- pose proof (compound_ref f IHb it t (D :: Ds) (T :: Ts) sc t0) as C.
-           destruct (scope_close (sexec_b f p it t [] [])) as [[o t']|]; simpl; auto.
-           eexists; split; [exact C|]. split; [left|]; auto.
+      * (* SObj *)
+        simpl in W. apply andb_true_iff in W. destruct W as [W1 W2].
+        apply negb_true_iff in W1. apply mem_name_false in W1.
+        rewrite declare_obj_cc.
+        assert (ET : obj_entries x t = [(NVar x, t)]) by (destruct t; try reflexivity; discriminate).
+        assert (EP : obj_parts t (oid n k) = [(t, oid n k)]) by (destruct t; try reflexivity; discriminate).
+        assert (ES : obj_slots F x t (oid n k) = (NVar x, (oid n k, false)) :: F) by (destruct t; try reflexivity; discriminate).
+        rewrite ET, EP, ES.
+        assert (NI : ~ In (NVar x) (names Tm)) by (intro; apply W1; apply in_or_app; now left).
+        assert (NJ : ~ In (NVar x) N0) by (intro; apply W1; apply in_or_app; now right).
+        set (Tm' := Tm ++ [(NVar x, t)]). set (F' := (NVar x, (oid n k, false)) :: F).
+        assert (K : names Tm' = names Tm ++ [NVar x] /\
+                   NoDup (names Tm') /\ disj (names Tm') N0 /\ lvl_ok F' Tm' (T ++ [(t, oid n k)]) /\ agree N0 F F').
+        { subst Tm' F'. rewrite names_app; simpl.
+          split; [reflexivity|]. split; [|split; [|split]].
+          - apply NoDup_app_cons_end; auto.
+          - intros y Hy. apply in_app_or in Hy. destruct Hy as [Hy|[<-|[]]]; auto.
+          - apply Forall2_app.
+            + eapply lvl_ok_change; [exact OK|]. intros y Hy. apply lookup_cons_other. intro; subst; contradiction.
+            + constructor; [|constructor]. split; [reflexivity|]. cbn [fst snd]. apply lookup_cons_same.
+          - intros y Hy. apply lookup_cons_other. intro; subst; contradiction. }
+        eexists; split; [reflexivity|]. split.
+        -- left. exists Tm', F'. split; [reflexivity|]. tauto.
+        -- intros _. exists Tm', F'. split; [reflexivity|]. simpl. exact K.
+      * (* SDefer *)
+        rewrite defer_stmt_cc.
+        eexists; split; [reflexivity|]. simpl.
+        split.
+        -- left. exists Tm, F. repeat split; auto using agree_refl.
+        -- intros _. exists Tm, F. rewrite app_nil_r. repeat split; auto using agree_refl.
+      * (* SMark *)
+        eexists; split; [reflexivity|]. apply (KEEP _ _ F); auto using agree_refl.
+      * (* SBlock *)
+        simpl in W.
+        pose proof (compound_ref f IHb n it b (names Tm ++ N0) (D :: Ds) (Tm :: Ts) F Fs t0 W) as C.
+        destruct (scope_close (sexec_b f p n it b [] [])) as [[o t]|]; simpl; auto.
+        destruct C as (F' & C & AG). eexists; split; [exact C|]. apply (KEEP _ _ F'); auto.
+      * (* SIf *)
+        simpl in W. apply andb_true_iff in W. destruct W as [W1 W2].
+        destruct (cond_true n it c).
+        -- pose proof (compound_ref f IHb n it t (names Tm ++ N0) (D :: Ds) (Tm :: Ts) F Fs t0 W1) as C.
+           destruct (scope_close (sexec_b f p n it t [] [])) as [[o t']|]; simpl; auto.
+           destruct C as (F' & C & AG). eexists; split; [exact C|]. apply (KEEP _ _ F'); auto.
         -- destruct e as [|s' r'].
-           ++ rewrite app_nil_r. eexists; split; [reflexivity|]. split; [left|]; auto.
-           ++ pose proof (compound_ref f IHb it (BCons s' r') (D :: Ds) (T :: Ts) sc t0) as C.
-              destruct (scope_close (sexec_b f p it (BCons s' r') [] [])) as [[o t']|]; simpl; auto.
-              eexists; split; [exact C|]. split; [left|]; auto.
-      * unfold push_defer_scope; simpl.
-        pose proof (IHl n 0 b ([] :: D :: Ds) (T :: Ts) sc t0) as L.
-        destruct (sloop f p n 0 b) as [[o t]|].
-        -- rewrite L.
+           ++ eexists; split; [reflexivity|]. apply (KEEP _ _ F); auto using agree_refl.
+              now rewrite app_nil_r.
+           ++ pose proof (compound_ref f IHb n it (BCons s' r') (names Tm ++ N0) (D :: Ds) (Tm :: Ts) F Fs t0 W2) as C.
+              destruct (scope_close (sexec_b f p n it (BCons s' r') [] [])) as [[o t']|]; simpl; auto.
+              destruct C as (F' & C & AG). eexists; split; [exact C|]. apply (KEEP _ _ F'); auto.
+      * (* SLoop *)
+        simpl in W. unfold push_defer_scope; simpl.
+        pose proof (IHl n n0 0 b (names Tm ++ N0) ([] :: D :: Ds) (Tm :: Ts) F Fs t0 W) as L.
+        destruct (sloop f p n n0 0 b) as [[o t]|].
+        -- destruct L as (F' & L & AG). rewrite L.
            destruct o; rewrite pop_defer_scope_cons; simpl; rewrite app_nil_r;
-             (eexists; split; [reflexivity|]; split; [left|]; auto).
+             (eexists; split; [reflexivity|]; apply (KEEP _ _ F'); auto).
         -- now rewrite L.
-      * unfold push_scope; simpl.
-        pose proof (IHb None (body p f0) [] [] (D :: Ds) (T :: Ts) (S sc) t0) as B.
-        destruct (sexec_b f p None (body p f0) [] []) as [[[[o t] D'] T']|]; simpl.
-        -- destruct B as (st' & E & R & _). rewrite E.
-           erewrite rel_close_scope by eassumption. simpl. rewrite guard_report_same.
-           eexists; split; [reflexivity|]. rewrite <- app_assoc. split; [left|]; auto.
-        -- now rewrite B.
-      * rewrite pre_return_cleanup_cc.
-        eexists; split; [reflexivity|]. rewrite app_nil_r. split; [right; auto|]. congruence.
-      * rewrite app_nil_r. eexists; split; [reflexivity|]. split; [left|]; auto.
-      * rewrite app_nil_r. eexists; split; [reflexivity|]. split; [left|]; auto.
-    + red; intros it b D T Ds Ts sc t0.
+      * (* SCall *)
+        unfold push_scope; cbn [dfs dts vars tr].
+        pose proof (IHb (pred n) None (body p f0) [] [] [] [] (D :: Ds) (Tm :: Ts) [] (F :: Fs) t0
+                        (wf_body p f0 WFP) (NoDup_nil _) (fun x H => match H with end) (Forall2_nil _)) as B.
+        destruct (sexec_b f p (pred n) None (body p f0) [] []) as [[[[o t] D'] T']|]; cbn [scope_close].
+        -- destruct B as (st' & E & R & _).
+           match goal with |- context [mexec_b ?a ?b ?c ?d ?e ?st] =>
+             let X := fresh in assert (X : mexec_b a b c d e st = Some (o, st')) by exact E; rewrite X end.
+           erewrite rel_close_scope by eassumption. simpl. rewrite guard_report_same by reflexivity.
+           eexists; split; [reflexivity|]. rewrite <- app_assoc. apply (KEEP _ _ F); auto using agree_refl.
+        -- match goal with |- context [mexec_b ?a ?b ?c ?d ?e ?st] =>
+             let X := fresh in assert (X : mexec_b a b c d e st = None) by exact B; now rewrite X end.
+      * (* SRet *)
+        erewrite pre_return_cleanup_cc by eassumption.
+        eexists; split; [reflexivity|]. rewrite app_nil_r. split; [|congruence].
+        right. split; [reflexivity|]. eexists; split; [reflexivity|].
+        apply agree_flag_names. intros y Hy. apply DJ. now apply in_rev.
+      * eexists; split; [reflexivity|]. apply (KEEP _ _ F); auto using agree_refl. now rewrite app_nil_r.
+      * eexists; split; [reflexivity|]. apply (KEEP _ _ F); auto using agree_refl. now rewrite app_nil_r.
+    + red; intros n it b N0 D Tm T Ds Ts F Fs t0 W ND DJ OK.
       destruct b as [|s r]; simpl.
-      * rewrite app_nil_r. eexists; split; [reflexivity|]. split; [left|]; auto.
-      * pose proof (IHs it s D T Ds Ts sc t0) as HS.
-        destruct (sexec f p it s D T) as [[[[o t] D1] T1]|].
+      * rewrite app_nil_r. eexists; split; [reflexivity|].
+        assert (I : intact N0 F (mk (D :: Ds) (Tm :: Ts) (F :: Fs) t0) D T Ds Ts Fs t0)
+          by (exists Tm, F; auto using agree_refl).
+        split; [left|]; auto.
+      * simpl in W. apply andb_true_iff in W. destruct W as [W1 W2].
+        pose proof (IHs n it s N0 D Tm T Ds Ts F Fs t0 W1 ND DJ OK) as HS.
+        destruct (sexec f p n it s D T) as [[[[o t] D1] T1]|].
         -- destruct HS as (st1 & E & R & N). rewrite E.
-           destruct o; try (eexists; split; [reflexivity|]; split; auto).
-           rewrite (N ltac:(discriminate)).
-           pose proof (IHb it r D1 T1 Ds Ts sc (t0 ++ t)) as HB.
-           destruct (sexec_b f p it r D1 T1) as [[[[o2 t2] D2] T2]|].
-           ++ destruct HB as (st2 & E2 & R2 & N2). rewrite E2, app_assoc.
-              eexists; split; [reflexivity|]. auto.
-           ++ exact HB.
+           destruct o; try (eexists; split; [reflexivity|]; split; [exact R|];
+                            intros _; destruct (N ltac:(discriminate)) as (Tm' & F' & K); eapply intact_of; exact K).
+           ++ destruct (N ltac:(discriminate)) as (Tm1 & F1 & -> & EN & ND1 & DJ1 & OK1 & AG1).
+              rewrite <- EN in W2.
+              pose proof (IHb n it r N0 D1 Tm1 T1 Ds Ts F1 Fs (t0 ++ t) W2 ND1 DJ1 OK1) as HB.
+              destruct (sexec_b f p n it r D1 T1) as [[[[o2 t2] D2] T2]|].
+              ** destruct HB as (st2 & E2 & R2 & N2). rewrite E2, app_assoc.
+                 eexists; split; [reflexivity|].
+                 assert (TR : forall st, intact N0 F1 st D2 T2 Ds Ts Fs ((t0 ++ t) ++ t2) ->
+                                         intact N0 F st D2 T2 Ds Ts Fs ((t0 ++ t) ++ t2)).
+                 { intros st (Tm2 & F2 & A & B & C & DD & AG2). exists Tm2, F2. repeat split; auto.
+                   eapply agree_trans; eauto. }
+                 split.
+                 --- destruct R2 as [I|[EO (F2 & A & AG2)]]; [left; auto|].
+                     right. split; [exact EO|]. exists F2. split; [exact A|]. eapply agree_trans; eauto.
+                 --- intros H. auto.
+              ** exact HB.
+           ++ (* ORet: no intact claim needed *)
+              eexists; split; [reflexivity|]. split; [exact R|]. congruence.
         -- now rewrite HS.
-    + red; intros n i b Xs Ys sc t0. simpl.
-      destruct (n <=? i).
-      * now rewrite app_nil_r.
-      * pose proof (compound_ref f IHb (Some i) b Xs Ys sc t0) as C.
-        destruct (scope_close (sexec_b f p (Some i) b [] [])) as [[o t]|].
-        -- rewrite C. destruct o; auto.
-           ++ pose proof (IHl n (S i) b Xs Ys sc (t0 ++ t)) as L.
-              destruct (sloop f p n (S i) b) as [[o2 t2]|]; [now rewrite L, app_assoc|exact L].
-           ++ pose proof (IHl n (S i) b Xs Ys sc (t0 ++ t)) as L.
-              destruct (sloop f p n (S i) b) as [[o2 t2]|]; [now rewrite L, app_assoc|exact L].
+    + red; intros n m i b N0 Xs Ys F Fs t0 W. simpl.
+      destruct (m <=? i).
+      * rewrite app_nil_r. exists F. auto using agree_refl.
+      * pose proof (compound_ref f IHb n (Some i) b N0 Xs Ys F Fs t0 W) as C.
+        destruct (scope_close (sexec_b f p n (Some i) b [] [])) as [[o t]|].
+        -- destruct C as (F1 & C & AG1). rewrite C. destruct o.
+           ++ pose proof (IHl n m (S i) b N0 Xs Ys F1 Fs (t0 ++ t) W) as L.
+              destruct (sloop f p n m (S i) b) as [[o2 t2]|]; [|exact L].
+              destruct L as (F2 & L & AG2). exists F2. rewrite L, app_assoc. split; auto. eapply agree_trans; eauto.
+           ++ exists F1. auto.
+           ++ exists F1. auto.
+           ++ pose proof (IHl n m (S i) b N0 Xs Ys F1 Fs (t0 ++ t) W) as L.
+              destruct (sloop f p n m (S i) b) as [[o2 t2]|]; [|exact L].
+              destruct L as (F2 & L & AG2). exists F2. rewrite L, app_assoc. split; auto. eapply agree_trans; eauto.
         -- now rewrite C.
 Qed.
 
-Lemma run_ref : forall fuel,
-  match srun fuel p with
-  | None => mrun fuel p = None
-  | Some (true, t) => mrun fuel p = Some (true, mk [] [[]] 1 t)
-  | Some (false, t) => exists st, mrun fuel p = Some (false, st) /\ tr st = t
+Lemma run_ref : forall fuel n0,
+  match srun fuel p n0 with
+  | None => mrun fuel p n0 = None
+  | Some (true, t) => mrun fuel p n0 = Some (true, mk [] [[]] [[]] t)
+  | Some (false, t) => exists st, mrun fuel p n0 = Some (false, st) /\ tr st = t
   end.
 Proof.
-  intros fuel. unfold srun, mrun, init_state, push_scope; simpl.
+  intros fuel n0. unfold srun, mrun, init_state, push_scope; simpl.
   destruct (ref_all fuel) as (_ & HF & _).
-  specialize (HF None (body p 0) [] [] [] [[]] 2 []).
-  destruct (sexec_b fuel p None (body p 0) [] []) as [[[[o t] D'] T']|].
-  - destruct HF as (st' & E & R & N). rewrite E.
+  specialize (HF n0 None (body p 0) [] [] [] [] [] [[]] [] [[]] []
+                 (wf_body p 0 WFP) (NoDup_nil _) (fun x H => match H with end) (Forall2_nil _)).
+  destruct (sexec_b fuel p n0 None (body p 0) [] []) as [[[[o t] D'] T']|].
+  - destruct HF as (st' & E & R & N).
+    match goal with |- context [mexec_b ?a ?b ?c ?d ?e ?st] =>
+      let X := fresh in assert (X : mexec_b a b c d e st = Some (o, st')) by exact E; rewrite X end.
     destruct o.
     + erewrite rel_close_scope by eassumption. reflexivity.
     + erewrite rel_close_scope by eassumption. reflexivity.
-    + rewrite (N ltac:(discriminate)). eexists; split; reflexivity.
-    + rewrite (N ltac:(discriminate)). eexists; split; reflexivity.
-  - now rewrite HF.
+    + destruct (N ltac:(discriminate)) as (Tm' & F' & -> & _). eexists; split; reflexivity.
+    + destruct (N ltac:(discriminate)) as (Tm' & F' & -> & _). eexists; split; reflexivity.
+  - match goal with |- context [mexec_b ?a ?b ?c ?d ?e ?st] =>
+      let X := fresh in assert (X : mexec_b a b c d e st = None) by exact HF; now rewrite X end.
 Qed.
 End Ref.
 
-(* ---- corollaries, for every program *)
+(* ---- corollaries, for every program without re-declared live names *)
 
-(* a statement (any outcome) leaves everything below its own level and the variable-scope depth as
-   they were *)
-Lemma stmt_balanced : forall p fuel it s D T Ds Ts sc t0 o st',
-  mexec fuel p it s (mk (D :: Ds) (T :: Ts) sc t0) = Some (o, st') ->
-  tl (dfs st') = Ds /\ tl (dts st') = Ts /\ scd st' = sc /\
-  length (dfs st') = S (length Ds) /\ length (dts st') = S (length Ts).
+(* what a call prints is the callee's body closed as a Spec scope: a function of the callee (and the
+   depth argument) alone - whatever the caller's pending objects are called - and the caller's state is
+   handed back untouched *)
+Lemma call_transcript : forall p, wf_prog p = true -> forall fuel n it g D Tm Ds Ts F Fs t0 o st',
+  mexec (S fuel) p n it (SCall g) (mk (D :: Ds) (Tm :: Ts) (F :: Fs) t0) = Some (o, st') ->
+  exists o1 t, scope_close (sexec_b fuel p (pred n) None (body p g) [] []) = Some (o1, t) /\
+               o = call_outcome o1 /\ st' = mk (D :: Ds) (Tm :: Ts) (F :: Fs) (t0 ++ t).
 Proof.
-  intros p fuel it s D T Ds Ts sc t0 o st' E.
-  destruct (ref_all p fuel) as (HPs & _ & _).
-  specialize (HPs it s D T Ds Ts sc t0).
-  destruct (sexec fuel p it s D T) as [[[[o1 t] D'] T']|].
-  - destruct HPs as (st1 & E1 & R & _). rewrite E1 in E. inversion E; subst.
-    destruct R as [->|[_ ->]]; simpl; auto.
-  - rewrite HPs in E. discriminate.
-Qed.
-
-(* a call leaves both stacks exactly as they were - the caller's pending defers D and objects T included -
-   and what it prints is the callee's body as a Spec scope: a function of the callee alone *)
-Lemma call_balanced : forall p fuel it g D T Ds Ts sc t0 o st',
-  mexec (S fuel) p it (SCall g) (mk (D :: Ds) (T :: Ts) sc t0) = Some (o, st') ->
-  exists o1 t, scope_close (sexec_b fuel p None (body p g) [] []) = Some (o1, t) /\
-               o = call_outcome o1 /\ st' = mk (D :: Ds) (T :: Ts) sc (t0 ++ t).
-Proof.
-  intros p fuel it g D T Ds Ts sc t0 o st' E.
-  destruct (ref_all p (S fuel)) as (HPs & _ & _).
-  specialize (HPs it (SCall g) D T Ds Ts sc t0). simpl in HPs, E.
-  destruct (scope_close (sexec_b fuel p None (body p g) [] [])) as [[o1 t]|].
-  - destruct HPs as (st1 & E1 & _ & N). rewrite E1 in E. inversion E; subst.
-    exists o1, t. split; [reflexivity|]. split; [reflexivity|].
-    rewrite N by (destruct o1; discriminate). now rewrite ?app_nil_r.
-  - rewrite HPs in E. discriminate.
+  intros p W fuel n it g D Tm Ds Ts F Fs t0 o st' E.
+  destruct (ref_all p W fuel) as (_ & HPb & _).
+  pose proof (HPb (pred n) None (body p g) [] [] [] [] (D :: Ds) (Tm :: Ts) [] (F :: Fs) t0
+                  (wf_body p g W) (NoDup_nil _) (fun x H => match H with end) (Forall2_nil _)) as B.
+  cbn [mexec] in E. unfold push_scope in E; cbn [dfs dts vars tr] in E.
+  destruct (sexec_b fuel p (pred n) None (body p g) [] []) as [[[[o1 t] D'] T']|]; cbn [scope_close].
+  - destruct B as (st1 & E1 & R & _).
+    match type of E with context [mexec_b ?a ?b ?c ?d ?e ?st] =>
+      let X := fresh in assert (X : mexec_b a b c d e st = Some (o1, st1)) by exact E1; rewrite X in E end.
+    erewrite rel_close_scope in E by eassumption.
+    rewrite guard_report_same in E by reflexivity.
+    inversion E; subst. exists o1. eexists. split; [reflexivity|]. split; [reflexivity|].
+    now rewrite <- app_assoc.
+  - match type of E with context [mexec_b ?a ?b ?c ?d ?e ?st] =>
+      let X := fresh in assert (X : mexec_b a b c d e st = None) by exact B; rewrite X in E end.
+    discriminate.
 Qed.
 
 (* leaving a block - by whatever outcome - appends the block's reached defers LIFO, THEN its objects'
-   destructors LIFO, after everything the block itself printed *)
-Lemma block_exit_order : forall p fuel it b Xs Ys sc t0 o st',
-  mexec (S fuel) p it (SBlock b) (mk Xs Ys sc t0) = Some (o, st') ->
-  exists t D' T', sexec_b fuel p it b [] [] = Some (o, t, D', T') /\
-                  st' = mk Xs Ys sc (t0 ++ t ++ map EDefer (rev D') ++ map EDtor (rev T')).
+   destructors LIFO, after everything the block itself printed; the slots of the names N0 of the
+   enclosing blocks are not touched *)
+Lemma block_exit_order : forall p, wf_prog p = true -> forall fuel n it b N0 Xs Ys F Fs t0 o st',
+  wf_b [] N0 b = true ->
+  mexec (S fuel) p n it (SBlock b) (mk Xs Ys (F :: Fs) t0) = Some (o, st') ->
+  exists t D' T' F', sexec_b fuel p n it b [] [] = Some (o, t, D', T') /\
+                     st' = mk Xs Ys (F' :: Fs) (t0 ++ t ++ map EDefer (rev D') ++ map dtor_ev (rev T')) /\
+                     agree N0 F F'.
 Proof.
-  intros p fuel it b Xs Ys sc t0 o st' E. simpl in E.
-  destruct (ref_all p fuel) as (_ & HPb & _).
-  pose proof (compound_ref p fuel HPb it b Xs Ys sc t0) as C.
-  destruct (sexec_b fuel p it b [] []) as [[[[o1 t] D'] T']|]; simpl in C.
-  - rewrite C in E. inversion E; subst. eauto.
+  intros p W fuel n it b N0 Xs Ys F Fs t0 o st' WB E. cbn [mexec] in E.
+  destruct (ref_all p W fuel) as (_ & HPb & _).
+  pose proof (compound_ref p fuel HPb n it b N0 Xs Ys F Fs t0 WB) as C.
+  destruct (sexec_b fuel p n it b [] []) as [[[[o1 t] D'] T']|]; simpl in C.
+  - destruct C as (F' & C & AG). rewrite C in E. inversion E; subst. exists t, D', T', F'. auto.
   - rewrite C in E. discriminate.
 Qed.
